@@ -739,8 +739,12 @@ class CSSStyleSheet(cssutils.stylesheets.StyleSheet):
                             index = len(self._cssRules) - i
                             break
                 else:
-                    # find first point to insert
+                    # find first point to insert, after any @charset or @import
+                    start = 0
                     for i, r in enumerate(self._cssRules):
+                        if r.type in (r.CHARSET_RULE, r.IMPORT_RULE):
+                            start = i + 1
+                    for i, r in enumerate(self._cssRules[start:], start):
                         if r.type in (
                             r.VARIABLES_RULE,
                             r.MEDIA_RULE,
